@@ -6,8 +6,8 @@ RUN = "monitor"
 TAGS = {4, 10, 11, 12, 14}
 RULE = ("workloads driven purely by events (open on Available, write on Writable, read on Readable/Opened) under loss "
         "up to 20% incl. every kind of drop mask over the first datagrams, duplication, reordering, all controllers, "
-        "pacing caps, small windows and stream limits, ack-frequency, key updates by either side, 0-RTT, timers serviced "
-        "early / late and spurious polls; the run must end quiescent with every stream finished and acknowledged; "
+        "pacing caps, small windows and stream limits, stream limits raised at run time while the peer is blocked and idle, ack-frequency, key updates by either side, 0-RTT, timers serviced "
+        "early / late, spurious polls and busy-polling drivers (every microsecond near a deadline); the run must end quiescent with every stream finished and acknowledged; "
         "non-trivial = at least one datagram was lost or a window/limit smaller than the workload was configured")
 
 
@@ -74,6 +74,38 @@ def gen(rng, n):
             d.pop("SEND_WINDOW", None)
             d.pop("ZERO_RTT", None)
             d.pop("PACING_BPS", None)
+        if rng.chance(1, 10):
+            # run-time stream-limit change: the client is blocked on a stream limit of 0 / 1 and otherwise
+            # idle when the server raises it with set_max_concurrent_streams
+            d.pop("ZERO_RTT", None)
+            d["NBIDI"] = rng.choice([0, 2])
+            d["NUNI"] = rng.choice([2, 3])
+            d["MAX_UNI"] = rng.choice([0, 0, 1])
+            d["MAX_BIDI"] = rng.choice([0, 1]) if d["NBIDI"] else 1
+            d["STREAM_BYTES"] = rng.choice([0, 1, 3000])
+            d["NEW_MAXSTREAMS_AT"] = rng.choice([200000, 500000, 2000000])
+            d["NEW_MAX_UNI"] = rng.choice([3, 10])
+            d["NEW_MAX_BIDI"] = rng.choice([2, 10])
+            d["READ_SERIAL"] = 0
+        if rng.chance(1, 10):
+            # a driver that polls far more often than necessary: every microsecond whenever a deadline
+            # (typically the pacing timer) is near; loss-free so that the run stays short
+            d = S.base(rng, small=False)
+            d["DELAY_MIN"] = d["DELAY_MAX"] = rng.choice([10000, 30000])
+            d["STREAM_BYTES"] = rng.choice([50000, 100000])
+            d["WRITE_CHUNK"] = 100000
+            d["READ_MAX"] = 100000
+            d["NBIDI"] = rng.below(2)
+            d["NUNI"] = 1
+            d["BUSY_NEAR_US"] = rng.choice([5000, 20000])
+            d["CLOSER"] = 0
+            d["IDLE_MS"] = 0
+            d["MAX_TIME"] = 20_000_000
+            if rng.chance(1, 3):
+                d["CONTROLLER"] = rng.choice([1, 2])
+            if rng.chance(1, 3):
+                d["PACING_BPS"] = rng.choice([200000, 1000000])
+                d["STREAM_BYTES"] = min(d["STREAM_BYTES"], d["PACING_BPS"] // 4)
         # keep the transfer within a few hundred round trips of the smallest window
         w = min(d.get("STREAM_RWND", 1 << 40), d.get("RWND", 1 << 40), d.get("SEND_WINDOW", 1 << 40))
         k = 20 if d.get("LOSS", 0) >= 100 else 100
